@@ -2,6 +2,8 @@ use crate::runner::Prop;
 
 pub mod c01;
 pub mod c03;
+pub mod c24;
+pub mod c24_table;
 pub mod hist;
 
 pub fn all() -> Vec<Box<dyn Prop>> {
@@ -13,6 +15,10 @@ pub fn all() -> Vec<Box<dyn Prop>> {
         Box::new(hist::Hist { id: "C10" }),
         Box::new(hist::Hist { id: "C11" }),
         Box::new(hist::Hist { id: "C29" }),
+        Box::new(c24::C24),
+        Box::new(hist::Hist { id: "C12" }),
+        Box::new(hist::Hist { id: "C14" }),
+        Box::new(hist::Hist { id: "C30" }),
     ]
 }
 
